@@ -24,7 +24,11 @@ class FlowFamily:
             w = wf
             if sub != 'loop' and rng.random() < 0.4:
                 w = flow.permute(wf, rng)
-            sc_ = flow.scenario('', w, a, b, sched, rng.randrange(1 << 30), snap=opts.get('snap', 'rows'), store=opts.get('store', 'mem'))
+            stripped = sub == 'plain' and rng.random() < opts.get('strip', 0.15)
+            sc_ = flow.scenario('', flow.strip_ids(w, rng) if stripped else w, a, b, sched, rng.randrange(1 << 30), snap=opts.get('snap', 'rows'), store=opts.get('store', 'mem'))
+            if stripped:
+                sc_['stripped'] = True      # steps / acts without explicit ids: the engine names them, outcomes are compared by kind
+                sc_['sched'] += '+noids'
             if sched[2] == 'quiescent' and opts.get('store') == 'sqlite' and rng.random() < opts.get('restart', 0.0):
                 # fault: the engine is stopped and a new one started on the same database at a quiescent point
                 sc_['faults'] = {'restart_at': sorted(set(rng.randint(1, 5) for _ in range(rng.randint(1, 2))))}
@@ -48,6 +52,8 @@ class FlowFamily:
         after a needed sibling under the same parent instance is terminal; an else-branch only after all its if-siblings are"""
         from monitors import model_facts
         out = []
+        if sc.get('stripped'):
+            return out
         facts = model_facts(sc)
         kids = collections.defaultdict(list)
         for k in h.create_by:
@@ -100,6 +106,20 @@ class FlowFamily:
         obs['c04.runs'] += 1
         obs['c04.nodes-compared'] += len(exp)
         tag = f"{m['sub']}:{ade}"
+        if sc.get('stripped'):
+            # nodes are not addressable by id: compare the multiset of (kind, final state) and the process state
+            kinds = {}
+            from monitors import walk_nodes
+            for n, kind, _ in walk_nodes(m['wf']):
+                kinds[n['id']] = kind
+            want = collections.Counter((kinds[k], v) for k, v in exp.items())
+            have = collections.Counter((t['kind'], t['state']) for t in final.values())
+            if want != have:
+                out.append(V('C04', 'outcome-multiset', f"noids:{'missing' if want - have else 'extra'}:{tag}", f"id-less model: final (kind, state) counts differ from the reference: missing {dict(want - have)} extra {dict(have - want)} (a={m['a']} b={m['b']} sched {sc['sched']})", scenario=sc['id']))
+            p = h.final_procs().get('p1')
+            if p is None or p['state'] != 'completed':
+                out.append(V('C04', 'process-state', f"{p['state'] if p else 'absent'}:{tag}", f"process ended {p['state'] if p else 'absent'}, reference says completed (sched {sc['sched']})", scenario=sc['id']))
+            return out
         dup = [n for n, c_ in inst.items() if c_ > 1]
         if dup:
             out.append(V('C04', 'node-instantiated-twice', tag, f"nodes {dup} have several task instances (inputs a={m['a']} b={m['b']}, sched {sc['sched']})", scenario=sc['id']))
